@@ -222,6 +222,42 @@ def run(run):
                     if not mentions(recv, is_loc):
                         run.bad("C06.P1", "lookup-uses-absolute-position/%s" % short(p), where(t),
                                 "%s consults %s of the un-localised search span: whether a drawing matches the catalogue would depend on where it sits on the page" % (short(p), short(n)))
+        # the cells that are left over go back to the caller in page coordinates: they are taken from the search
+        # span itself, never from its localised copy (the caller re-offsets only the catalogue fragment)
+        rem = 0
+        for q in bodies:
+            ex = Expr(prog, q)
+            for bid, t in prog.calls(q):
+                n = Program.callee_name(t)
+                if re.search(r"<svgbob::[\w:]*span::Span as core::convert::From<.*>>::from$", n) and t["args"]:
+                    rem += 1
+                    a = strip(ex.operand(t["args"][0]))
+                    # the iterated source: follow the receiver chain of the iterator adaptors (their closures
+                    # legitimately capture the index list computed on the localised copy)
+                    while a[0] == "call" and a[2] and re.search(r"::(collect|filter_map|filter|map|enumerate|iter|into_iter|cloned|copied|deref|rev|to_vec|clone)$", a[1]):
+                        a = strip(a[2][0])
+                    loc = mentions(a, is_loc)
+                    if not loc and "{closure" in q:
+                        parent = q.rsplit("::{closure", 1)[0]
+                        caps = set()
+                        mentions(a, lambda z: z[0] == "param" and z[1] == 1 and z[2] and str(z[2][0]).isdigit() and caps.add(int(z[2][0])) and False)
+                        if parent in prog.bodies and caps:
+                            pex = Expr(prog, parent)
+                            for blk in prog.bodies[parent]["blocks"]:
+                                for st in blk["stmts"]:
+                                    rv = st.get("rv") or {}
+                                    if rv.get("k") == "agg" and rv.get("closure") == q:
+                                        for i in caps:
+                                            if i < len(rv["ops"]) and mentions(pex.operand(rv["ops"][i]), is_loc):
+                                                loc = True
+                    if loc:
+                        run.bad("C06.P1", "remainder-localised/%s" % short(p), where(t),
+                                "%s builds the span of the left-over cells from the *localised* copy of the search span: the matched shape is moved back to its place by the caller, "
+                                "but everything attached to it is emitted near the page origin" % short(p))
+                    else:
+                        run.ok("C06.P1", "%s returns the left-over cells in page coordinates (taken from the search span itself)" % short(p), where(t))
+        if rem != 1:
+            run.bad("C06.P1", "remainder-shape/%s" % short(p), where(prog.bodies[p]), "%s builds %d remainder spans, expected exactly one Span::from(..)" % (short(p), rem))
         if subset:
             run.ok("C06.P1", "%s compares the localised search span with the catalogue" % short(p), where(prog.bodies[p]))
         else:
